@@ -287,7 +287,12 @@ class FixedArray2D
     void
     setitem_vector(PyObject *index, const FixedArray2D &data)
     {
-        //TODO:sanity check
+        if (!PyTuple_Check(index) || PyTuple_Size(index) != 2)
+        {
+            PyErr_SetString(PyExc_TypeError, "Slice syntax error");
+            boost::python::throw_error_already_set();
+        }
+
         size_t startx=0, endx=0, slicelengthx=0;
         size_t starty=0, endy=0, slicelengthy=0;
         Py_ssize_t stepx=0;
@@ -349,7 +354,12 @@ class FixedArray2D
     void
     setitem_array1d(PyObject *index, const FixedArray<T> &data)
     {
-        //TODO:sanity check
+        if (!PyTuple_Check(index) || PyTuple_Size(index) != 2)
+        {
+            PyErr_SetString(PyExc_TypeError, "Slice syntax error");
+            boost::python::throw_error_already_set();
+        }
+
         size_t startx=0, endx=0, slicelengthx=0;
         size_t starty=0, endy=0, slicelengthy=0;
         Py_ssize_t stepx=0;
